@@ -44,6 +44,25 @@ func compatGenome(id int, gs []compatGene, scale float64) *genetics.Genome {
 	return genetics.NewGenome(id, []*neat.Trait{tr}, []*network.NNode{in, out}, genes)
 }
 
+// compatGenomeOtherWiring builds the same gene list (innovation numbers, mutation numbers) on another network: other end
+// points, recurrent and disabled genes, weights unrelated to the mutation numbers.  The distance is a function of innovation
+// and mutation numbers only.
+func compatGenomeOtherWiring(id int, gs []compatGene, scale float64) *genetics.Genome {
+	in := network.NewNNode(1, network.InputNeuron)
+	out := network.NewNNode(2, network.OutputNeuron)
+	hid := network.NewNNode(3, network.HiddenNeuron)
+	ends := [][2]*network.NNode{{in, hid}, {hid, out}, {hid, hid}, {in, out}}
+	genes := make([]*genetics.Gene, len(gs))
+	for i, g := range gs {
+		e := ends[(i+int(g.Inn))%4]
+		genes[i] = genetics.NewGene(100.5+float64(i), e[0], e[1], e[0] == e[1], g.Inn, float64(g.Mut)*scale)
+		genes[i].IsEnabled = i%2 == 0
+	}
+	tr := neat.NewTrait()
+	tr.Id = 1
+	return genetics.NewGenome(id, []*neat.Trait{tr}, []*network.NNode{in, out, hid}, genes)
+}
+
 func replayCompat(args []string) int {
 	fs := flag.NewFlagSet("replay-compat", flag.ExitOnError)
 	cases := fs.String("cases", "", "NDJSON cases written by TLC")
@@ -92,6 +111,10 @@ func replayCompat(args []string) int {
 					opts.GenCompatMethod = neat.GenomeCompatibilityMethodLinear
 					got["select-linear(b,a) with equal genome ids"] = gb.VerifCompatibility(ga, opts)
 					gb.Id = 2
+					// ... and of the genes only their innovation and mutation numbers count: the same lists on another wiring
+					gw := compatGenomeOtherWiring(2, c.B, scale)
+					got["linear(a, b on another wiring: other end points, disabled / recurrent genes, other weights)"] = ga.VerifCompatLinear(gw, opts)
+					got["fast(b on another wiring, a)"] = gw.VerifCompatFast(ga, opts)
 					// the distance is a function of the genes and the three coefficients only: every other option
 					// (speciation threshold, population size, mutation rates ...) is outside the formula
 					for _, thr := range []float64{0.25, 1, 3, 1e9} {
@@ -106,7 +129,7 @@ func replayCompat(args []string) int {
 						got["fast(a,b)"+tag] = ga.VerifCompatFast(gb, full)
 					}
 				})
-				rep.Evaluations += 24
+				rep.Evaluations += 26
 				bad := ""
 				if p != "" {
 					bad = "panic: " + p
